@@ -898,6 +898,9 @@ fn growth<const M: usize>(ctor_cap: usize, reqs: &[(usize, usize)], k: usize, vi
         let sizes: Vec<usize> = rq.iter().map(|r| r.0).collect();
         if let Some(i) = (1..sizes.len()).find(|&i| sizes[i] < sizes[i - 1]) {
             ck7(viol, "growth", "chunk-smaller-than-previous", "", format!("request sizes {:?} (index {})", &sizes[..sizes.len().min(12)], i));
+        } else if let Some(i) = (1..sizes.len()).find(|&i| sizes[i] + 64 < 2 * sizes[i - 1]) {
+            // nothing was refused and no limit is set: "doubling while the allocator and limit permit"
+            ck7(viol, "growth", "chunk-not-doubled", "", format!("request sizes {:?} (index {})", &sizes[..sizes.len().min(12)], i));
         }
         let first = sizes[0];
         let n = sizes.len() as f64;
@@ -1365,11 +1368,19 @@ pub fn gen_w7(seed: u64) -> W7Script {
                 2 => 100_000 + r.usize_below(900_000),
                 _ => 1_000_000 + r.usize_below(1_000_000),
             };
-            let class = r.below(4);
+            let class = r.below(5);
             let mut reqs = Vec::new();
             let mut total = 0;
+            // class 4: a ramp, every request a little larger than the one before (so that it
+            // tends to be larger than the current chunk but smaller than twice that)
+            let mut ramp = 200 + r.usize_below(9000);
+            let factor = 102 + r.usize_below(60);
             while total < volume && reqs.len() < 20_000 {
                 let size = match class {
+                    4 => {
+                        ramp = ramp * factor / 100 + r.usize_below(64);
+                        ramp.min(3 << 20)
+                    }
                     0 => 1 + r.usize_below(16),
                     1 => 1 + r.usize_below(256),
                     2 => 1 + r.usize_below(5000),
